@@ -45,6 +45,19 @@ def _flat_ops(ops):
     return out
 
 
+def _disconnect_after_gen(ops):
+    resumed = False
+    for o in ops:
+        if isinstance(o, str):
+            if o in ('gen_next', 'gen_write'):
+                resumed = True
+            elif o == 'disconnect' and resumed:
+                return True
+        elif _disconnect_after_gen(o[1]):
+            return True
+    return False
+
+
 def flatten_sqlite(obs):
     """-> (labels: pid->label, processes: list of (label, records, events))"""
     labels = {obs['pids']['P']: 'P'}
@@ -95,8 +108,12 @@ def judge_sqlite(case, obs):
         flat = [o for o in _flat_ops(case['child']) + list(case['parent_after'])]
         if any(o in gen_ops for o in flat):
             raise Unjudgeable('precondition: generator steps only exist in the gen_suspended state')
-    elif 'disconnect' in case['parent_after']:
-        raise Unjudgeable('precondition: the parent must not disconnect() while its own generator session is suspended')
+    else:
+        if 'disconnect' in case['parent_after']:
+            raise Unjudgeable('precondition: the parent must not disconnect() while its own generator session is suspended')
+        if _disconnect_after_gen(case['child']):
+            raise Unjudgeable('precondition: no disconnect() in a process after it resumed the generator (the suspended '
+                              'session holds that process\'s own connection; closing it is not a fork matter)')
 
     findings = []
     labels, procs, dead = flatten_sqlite(obs)
